@@ -297,6 +297,11 @@ func runC13(c *ev.ChildEnv, res *ev.Result) {
 			}
 			res.Violate(fmt.Sprintf("C13/differs/%s/%s", fam, site), "generator result differs from the reference interpretation of the adjustment: "+d, cs)
 		}
+		// every device the adjustment adds is made accessible: one allow rule with its type and numbers
+		if d := deviceRuleDiff(cs.Spec, firstSpec, cs.Adj); d != "" {
+			bad = true
+			res.Violate("C13/device-rules", "the device-cgroup rules added for the injected devices do not match them: "+d, cs)
+		}
 		if len(cs.Adj.Mounts) > 0 {
 			if v := mountOrderViolation(firstSpec.Mounts); v != "" {
 				bad = true
@@ -329,4 +334,42 @@ func init() {
 		Parallel: func(string) int { return 12 },
 		Run:      runC13,
 	})
+}
+
+func ruleStr(r rspec.LinuxDeviceCgroup) string {
+	maj, min := "*", "*"
+	if r.Major != nil {
+		maj = fmt.Sprint(*r.Major)
+	}
+	if r.Minor != nil {
+		min = fmt.Sprint(*r.Minor)
+	}
+	return fmt.Sprintf("allow=%v %s %s:%s", r.Allow, r.Type, maj, min)
+}
+
+// deviceRuleDiff compares the rules added by the adjustment (as a multiset of allow/type/major/minor) with
+// the devices it sets.
+func deviceRuleDiff(before, after *rspec.Spec, a *api.ContainerAdjustment) string {
+	var nb int
+	if before.Linux != nil && before.Linux.Resources != nil {
+		nb = len(before.Linux.Resources.Devices)
+	}
+	var added []string
+	if after.Linux != nil && after.Linux.Resources != nil && len(after.Linux.Resources.Devices) >= nb {
+		for _, r := range after.Linux.Resources.Devices[nb:] {
+			added = append(added, ruleStr(r))
+		}
+	}
+	var want []string
+	for _, d := range a.GetLinux().GetDevices() {
+		if _, marked := d.IsMarkedForRemoval(); !marked {
+			want = append(want, fmt.Sprintf("allow=true %s %d:%d", d.Type, d.Major, d.Minor))
+		}
+	}
+	sort.Strings(added)
+	sort.Strings(want)
+	if strings.Join(added, "|") != strings.Join(want, "|") {
+		return fmt.Sprintf("rules added %v, devices set %v", added, want)
+	}
+	return ""
 }
